@@ -120,7 +120,10 @@ func (s *sched) current() *schedTask {
 //
 //go:norace
 func (s *sched) settle() bool {
-	deadline := time.Now().Add(20 * time.Second)
+	// watchdog: 20 s of time actually spent waiting; each loop iteration counts for
+	// at most 10 ms, so a pause of the whole machine cannot use the budget up
+	var waited time.Duration
+	last := time.Now()
 	spins := 0
 	for {
 		var running []*schedTask
@@ -162,7 +165,13 @@ func (s *sched) settle() bool {
 			}
 			return true
 		}
-		if time.Now().After(deadline) {
+		now := time.Now()
+		d := now.Sub(last)
+		last = now
+		if d > 10*time.Millisecond {
+			d = 10 * time.Millisecond
+		}
+		if waited += d; waited > 20*time.Second {
 			s.hang = true
 			return false
 		}
